@@ -295,6 +295,13 @@ def oracle_case(xt, spec, pool, fail):
     got = xt.Packer(new).get_param_tensor_list(unique=False)
     if [id(x) for x in got] != [id(x) for x in sup]:
         fail("positions", "construct_from_tensor_list(unique=False): position i does not hold tensors[i]")
+    # every construction is a fresh object: a later call does not hand back (and refill) the containers of an earlier
+    # result, and the earlier result keeps its tensors (seeded defect C20/1: the packer's own memo was polluted)
+    sup2 = [torch.zeros_like(t) + 700 + i for i, t in enumerate(ts)]
+    new2 = pk.construct_from_tensor_list(list(sup2), unique=False)
+    got_again = xt.Packer(new).get_param_tensor_list(unique=False) if isinstance(new, (list, dict)) or hasattr(new, "__dict__") else got
+    if (new2 is new and not isinstance(new, torch.Tensor)) or [id(x) for x in got_again] != [id(x) for x in sup]:
+        fail("fresh-result", "a second construct_from_tensor_list returned / overwrote the first result")
     # aliasing preserved
     supu = [torch.zeros_like(t) + 70 + i for i, t in enumerate(us)]
     newu = pk.construct_from_tensor_list(list(supu), unique=True)
